@@ -273,12 +273,48 @@ def _g1(ctx: Context) -> None:
 
 
 # ---------------------------------------------------------------------- format_characteristic_list
+def _g2_callers(ctx: Context, f, requested: str | None) -> None:
+    """Whoever hands format_characteristic_list a set of requested characteristics hands it the ids its own caller asked
+    for - not a subset (e.g. only the readable ones): the request-wide status is applied to that set, so a characteristic
+    missing from it gets no result at all and a rejected write looks like an empty, i.e. successful, result."""
+    ck = ctx.ck
+    T = ctx.terms
+    n_sites = 0
+
+    def requested_param(t, g) -> bool:
+        t = strip_sites(t)
+        if t[0] == "phi":
+            return all(requested_param(a, g) for a in t[1])
+        if t[0] == "call" and t[1][0] == "glob" and t[1][1] in ("set", "frozenset", "list", "tuple") and len(t[2]) == 1 and not t[3]:
+            return requested_param(t[2][0], g)
+        return t[0] == "param" and t[1] in g.pos_params[1:]
+
+    for g in ctx.prog.package_functions():
+        if isinstance(g.node, ast.Lambda) or "format_characteristic_list" not in g.module.source or g.qualname == f.qualname:
+            continue
+        gcfg = ctx.cfg(g.qualname)
+        for n, c in ctx.nodes_calling_name(gcfg, "format_characteristic_list"):
+            arg = c.args[1] if len(c.args) >= 2 else next((k.value for k in c.keywords if k.arg == requested), None)
+            if arg is None:
+                continue
+            n_sites += 1
+            t = T.of(gcfg, n, arg)
+            ck.check("C13.G2", requested_param(t, g),
+                     f"{g.name}: format_characteristic_list is given the ids {g.name} was asked for",
+                     f"{ctx.fkey(g)}:requested-set",
+                     f"{g.name}: format_characteristic_list is told that the requested characteristics are {show(strip_sites(t), 100)}, not the ids {g.name} itself was "
+                     "asked for: a request-wide status is spread over that set only, so a requested characteristic outside it gets no result and its "
+                     "rejection is not reported", ctx.loc(g, n))
+    ck.require_min("C13.G2", "call sites passing a requested set to format_characteristic_list", n_sites, 1)
+
+
 def _g2(ctx: Context) -> None:
     ck = ctx.ck
     f = ctx.func(f"{IPP}.format_characteristic_list")
     cfg = ctx.cfg(f.qualname)
     T = ctx.terms
     data, requested = (f.pos_params + [None, None])[:2]
+    _g2_callers(ctx, f, requested)
     loops = [n for n in cfg.nodes if n.kind == "for_iter"]
     entry_loop = default_loop = None
     for n in loops:
